@@ -9,7 +9,10 @@
   * `std::partition` is any `Partitioner` (a permutation), the predicate's coin is `sel` by position;
   * `dataframe::push_back` has the single overload `(const example &)`, so `std::move(…,
     back_inserter(d))` copies exactly like `std::copy` (the translator checks the overload set);
-  * `static_cast<ptrdiff_t>(target_size)` is the parameter `ts` applied to `validation_.size()`.
+  * `static_cast<ptrdiff_t>(target_size)` is the parameter `ts` applied to `validation_.size()`;
+  * `dataframe::clone_schema(other)` assigns the metadata members only (`columns`, `classes_map_` – the
+    translator extracts and checks the assignments): it copies the abstract schema identifier and
+    touches no example.
 -/
 import Vita.C16.Model
 import Vita.C16.Syntax
@@ -43,6 +46,8 @@ structure M (α : Type) where
   clT : Nat                       -- `clear()` calls on the training evaluator
   clV : Nat
   ret : Option (Option Bool)      -- `some v` once a `return v` was executed
+  sch : Nat × Nat := (0, 0)       -- the metadata (columns, class labels) of training_ / validation_, as
+                                  -- abstract identifiers: `clone_schema` copies one onto the other
 
 namespace M
 variable {α : Type}
@@ -65,6 +70,23 @@ def put (m : M α) (arg : Option Cont) (c : Cont) (l : List α) : Option (M α) 
     | _ => none
 
 def setRng (m : M α) (r : Nat) : M α := { m with rng := r }
+
+def getSch (m : M α) (arg : Option Cont) : Cont → Option Nat
+  | .tr => some m.sch.1
+  | .va => some m.sch.2
+  | .arg => match arg with
+    | some .tr => some m.sch.1
+    | some .va => some m.sch.2
+    | _ => none
+
+def putSch (m : M α) (arg : Option Cont) (c : Cont) (v : Nat) : Option (M α) :=
+  match c with
+  | .tr => some { m with sch := (v, m.sch.2) }
+  | .va => some { m with sch := (m.sch.1, v) }
+  | .arg => match arg with
+    | some .tr => some { m with sch := (v, m.sch.2) }
+    | some .va => some { m with sch := (m.sch.1, v) }
+    | _ => none
 
 def setLoc (m : M α) (x : String) (v : Nat) : M α :=
   { m with loc := (x, v) :: m.loc.filter (fun p => p.1 != x) }
@@ -139,6 +161,7 @@ def evalB {α} (env : Env) (arg : Option Cont) (m : M α) : BE → Nat → Optio
   | .not a, r => do
       let (x, r) ← evalB env arg m a r; pure (!x, r)
   | .hasEvaT, r => some (env.hasEvaT, r)
+  | .empty c, r => (m.get arg c).map (fun l => (l.isEmpty, r))
 
 def applyFn {α} (ops : ElemOps α) : ElemFn → α → α
   | .resetAgeDiff => ops.reset
@@ -172,6 +195,9 @@ def exec0 {α} (ops : ElemOps α) (callFn : CallFn α) (env : Env) (arg : Option
       let src ← m.get arg c
       if a ≤ b ∧ b ≤ src.length then (m.setRng r).put arg c (src.take a ++ src.drop b) else none
   | .clear c => m.put arg c []
+  | .cloneSchema d s => do
+      let v ← m.getSch arg s
+      m.putSch arg d v
   | .partition c x => do
       let l ← m.get arg c
       let tagged := l.zipIdx.map fun (e, i) => (e, env.sel i)
